@@ -9,7 +9,7 @@ import time
 VERIF = os.path.dirname(os.path.dirname(os.path.abspath(__file__)))
 
 DEFAULT_CHECKS = ['--bounds-check', '--pointer-check', '--div-by-zero-check', '--signed-overflow-check',
-                  '--undefined-shift-check', '--conversion-check', '--pointer-primitive-check']
+                  '--undefined-shift-check', '--pointer-primitive-check']
 MEM_LIMIT = 24 << 30
 
 
